@@ -37,6 +37,7 @@ def step (_ : Unit) (ws : List String) : Unit × String :=
       let tr := String.intercalate "," (reqs.map reqStr)
       ((), s!"need={estimate p} trace={tr} oe={w.objectEnd - base} te={w.tableEnd - base} as={w.allocStart - base} failed={if w.failed then 1 else 0} nulls={nulls}")
     | _, _, _, _, _ => ((), "bad-op")
+  | ["estl", kind, l] => ((), toString (if kind == "cstream" then estStreamLevel l.toNat! else estLevel l.toNat!))
   | ["est", kind, cp] =>
     match nats cp with
     | [w, c, h, sl, mm, tl, st] => ((), toString (estimateUsingCParams ⟨w, c, h, sl, mm, tl, st⟩ (kind == "cstream")))
